@@ -36,6 +36,10 @@ func (k Key) String() string {
 	return fmt.Sprintf("%s/%s/%s/%s/%s", k.Group, k.Version, k.Resource, k.Namespace, k.Name)
 }
 
+// store returns the storage key: like a real API server, an object is ONE object whatever
+// version of its group it is addressed by.
+func (k Key) store() Key { k.Version = ""; return k }
+
 // ResourceInfo describes one REST resource the simulated server knows.
 type ResourceInfo struct {
 	Group, Version, Resource, Kind string
@@ -53,6 +57,7 @@ var Known = []ResourceInfo{
 	{"batch", "v1", "jobs", "Job", true},
 	{"apps", "v1", "deployments", "Deployment", true},
 	{"verif.example", "v1", "widgets", "Widget", true},
+	{"verif.example", "v2", "widgets", "Widget", true},
 	{"verif.example", "v1", "gadgets", "Gadget", true},
 	{"apiextensions.k8s.io", "v1", "customresourcedefinitions", "CustomResourceDefinition", false},
 }
@@ -114,14 +119,14 @@ func (s *Sim) Put(k Key, obj map[string]interface{}) {
 	defer s.mu.Unlock()
 	o := deepCopy(obj)
 	s.stamp(k, o, true)
-	s.objs[k] = o
+	s.objs[k.store()] = o
 }
 
 // GetObj returns a copy of the stored object or nil.
 func (s *Sim) GetObj(k Key) map[string]interface{} {
 	s.mu.Lock()
 	defer s.mu.Unlock()
-	if o, ok := s.objs[k]; ok {
+	if o, ok := s.objs[k.store()]; ok {
 		return deepCopy(o)
 	}
 	return nil
@@ -131,14 +136,14 @@ func (s *Sim) GetObj(k Key) map[string]interface{} {
 func (s *Sim) Remove(k Key) {
 	s.mu.Lock()
 	defer s.mu.Unlock()
-	delete(s.objs, k)
+	delete(s.objs, k.store())
 }
 
 // Mutate applies fn to the stored object (out-of-band edit).
 func (s *Sim) Mutate(k Key, fn func(o map[string]interface{})) bool {
 	s.mu.Lock()
 	defer s.mu.Unlock()
-	o, ok := s.objs[k]
+	o, ok := s.objs[k.store()]
 	if !ok {
 		return false
 	}
@@ -347,6 +352,19 @@ func (s *Sim) logReq(proc int, req *http.Request, key Key, storage bool, status 
 	s.reqs = append(s.reqs, r)
 }
 
+// view returns a copy of a stored object as seen through the requested version of its group.
+func view(o map[string]interface{}, k Key) map[string]interface{} {
+	c := deepCopy(o)
+	if k.Version != "" {
+		if k.Group != "" {
+			c["apiVersion"] = k.Group + "/" + k.Version
+		} else {
+			c["apiVersion"] = k.Version
+		}
+	}
+	return c
+}
+
 func (s *Sim) stamp(k Key, o map[string]interface{}, create bool) {
 	s.rv++
 	info, _ := lookupResource(k.Group, k.Version, k.Resource)
@@ -417,7 +435,7 @@ func (s *Sim) apply(req *http.Request, p parsed, key Key, body []byte) (int, int
 			}
 			var ks []Key
 			for k := range s.objs {
-				if k.Group == key.Group && k.Version == key.Version && k.Resource == key.Resource && (key.Namespace == "" || k.Namespace == key.Namespace) {
+				if k.Group == key.Group && k.Resource == key.Resource && (key.Namespace == "" || k.Namespace == key.Namespace) {
 					if sel.Matches(objLabels(s.objs[k])) {
 						ks = append(ks, k)
 					}
@@ -426,7 +444,7 @@ func (s *Sim) apply(req *http.Request, p parsed, key Key, body []byte) (int, int
 			sort.Slice(ks, func(i, j int) bool { return ks[i].String() < ks[j].String() })
 			items := make([]interface{}, 0, len(ks))
 			for _, k := range ks {
-				items = append(items, deepCopy(s.objs[k]))
+				items = append(items, view(s.objs[k], key))
 			}
 			gv := info.Version
 			if info.Group != "" {
@@ -435,11 +453,11 @@ func (s *Sim) apply(req *http.Request, p parsed, key Key, body []byte) (int, int
 			return 200, map[string]interface{}{"kind": info.Kind + "List", "apiVersion": gv,
 				"metadata": map[string]interface{}{"resourceVersion": strconv.Itoa(s.rv)}, "items": items}
 		}
-		o, ok := s.objs[key]
+		o, ok := s.objs[key.store()]
 		if !ok {
 			return notFound()
 		}
-		return 200, deepCopy(o)
+		return 200, view(o, key)
 	case http.MethodPost:
 		var o map[string]interface{}
 		if err := json.Unmarshal(body, &o); err != nil {
@@ -452,14 +470,14 @@ func (s *Sim) apply(req *http.Request, p parsed, key Key, body []byte) (int, int
 		}
 		key.Name = name
 		key.Namespace = p.ns
-		if _, exists := s.objs[key]; exists {
+		if _, exists := s.objs[key.store()]; exists {
 			return 409, statusObj(409, "AlreadyExists", fmt.Sprintf("%s %q already exists", info.Resource, name))
 		}
 		s.stamp(key, o, true)
-		s.objs[key] = o
+		s.objs[key.store()] = o
 		return 201, deepCopy(o)
 	case http.MethodPut:
-		old, ok := s.objs[key]
+		old, ok := s.objs[key.store()]
 		if !ok {
 			return notFound()
 		}
@@ -471,10 +489,10 @@ func (s *Sim) apply(req *http.Request, p parsed, key Key, body []byte) (int, int
 		if omd, _ := old["metadata"].(map[string]interface{}); omd != nil {
 			setNested(o, omd["uid"], "metadata", "uid")
 		}
-		s.objs[key] = o
+		s.objs[key.store()] = o
 		return 200, deepCopy(o)
 	case http.MethodPatch:
-		old, ok := s.objs[key]
+		old, ok := s.objs[key.store()]
 		if !ok {
 			return notFound()
 		}
@@ -503,14 +521,14 @@ func (s *Sim) apply(req *http.Request, p parsed, key Key, body []byte) (int, int
 			return 500, statusObj(500, "InternalError", err.Error())
 		}
 		s.stamp(key, o, false)
-		s.objs[key] = o
+		s.objs[key.store()] = o
 		return 200, deepCopy(o)
 	case http.MethodDelete:
-		o, ok := s.objs[key]
+		o, ok := s.objs[key.store()]
 		if !ok {
 			return notFound()
 		}
-		delete(s.objs, key)
+		delete(s.objs, key.store())
 		_ = o
 		return 200, map[string]interface{}{"kind": "Status", "apiVersion": "v1", "metadata": map[string]interface{}{}, "status": "Success"}
 	}
